@@ -48,6 +48,9 @@ Proof. vm_compute. reflexivity. Qed.
 Example pin_tok_bin_to_base64 : tok_bin_to_base64 =
     [(t "op:And");
      (t "call:isinstance");
+     (t "call:len");
+     (t "op:Gt");
+     (t "n:0");
      (t "call:isinstance");
      (t "n:0");
      (t "return");
